@@ -2,7 +2,7 @@ from vlib import Check
 
 PID = "C06"
 GROUP_KEY = "server/group/http.go:HTTPGroup.Register-route-without-registration-id"
-WINDOW_KEY = "pkg/util/vhost/http.go:pool-key-decided-before-dial-bare-host-connection"
+WINDOW_KEY = "pkg/util/vhost/http.go:route-looked-up-for-pool-key-and-again-for-dial"
 
 MANIFEST = dict(
     text="Machine-checked theorems (Coq 8.16.1) over an executable model of pkg/util/vhost/router.go (per-domain, per-user slices "
@@ -93,14 +93,16 @@ def recipe(c: Check):
         nv = c.cov.get("coq_counters", {}).get("window", {}).get("NWINDOWVIOL", 0)
         c.cov["window_finding_reproduced"] = nv
         c.cov["window_gated_replay"] = st.get("gated_replay")
+        c.cov["window_cross_wire_replay"] = st.get("cross_wire_replay")
         if nv > 0:
             if any(k["key"] == WINDOW_KEY for k in c.known_findings() if k["property"] == PID):
                 c.failures.append(dict(key=WINDOW_KEY, driver="window", case=st.get("witness_case"),
-                                       what="a request with no matching route is answered by the backend of an unregistered route (connection pooled under the bare-host key)"))
+                                       what="a request overtaken by a registration between routing and dial pools a connection to another route's backend under its own key: "
+                                            "later requests reach a backend whose route does not match (or was unregistered)"))
             else:
-                c.notes.append("FINDING (reported to the lead, not yet in KNOWN_FINDINGS.txt): %s reproduced with the DialContext gate; witness: %s"
-                               % (WINDOW_KEY, st.get("witness_case")))
-                c.say("FINDING-CANDIDATE property=C06 %s reproduced with the DialContext gate (proposed-fixes/C06_pool_key_bare_host.diff)" % WINDOW_KEY)
+                c.notes.append("FINDING (reported to the lead, not yet in KNOWN_FINDINGS.txt): %s reproduced with the DialContext gate on %d witness histories; %s; %s"
+                               % (WINDOW_KEY, nv, st.get("cross_wire_replay"), st.get("gated_replay")))
+                c.say("FINDING-CANDIDATE property=C06 %s reproduced with the DialContext gate, %d witnesses (proposed-fixes/C06_dial_by_routed_config.diff)" % (WINDOW_KEY, nv))
         else:
             c.notes.append("the routing/dial window finding (%s) did not reproduce on this run" % WINDOW_KEY)
     return c.finish(
